@@ -158,3 +158,4 @@ pub fn cases_for(id: &str) -> Vec<(&'static str, fn() -> Option<Violation>)> {
     }
 }
 
+
